@@ -23,7 +23,7 @@ AS = (1 / 64, 0.25, 0.5, 2.0, 3.0, 10.0, 64.0, 100.0)
 
 def REQUIRED(tier):
     return [f"scale:{m}" for m in SCALES] + ["axis:None", "axis:0", "axis:1", "shape:one_lane", "shape:2d", "shape:1d", "class:constant", "class:zeros", "class:mixed_lanes", "class:ties",
-                                             "class:outliers", "equivariance_checks", "zscore_checks", "lane_checks", "a<0", "via_block", "via_timeseries", "layout:F", "layout:T_view", "dtype:float64_input", "input_unchanged_checks", "class:constant_nonround", "zscore_norm_location_checks", "dtype:unsigned_input", "long_strided_lane_checks", "class:smooth", "mid_lane_checks"]
+                                             "class:outliers", "equivariance_checks", "zscore_checks", "lane_checks", "a<0", "via_block", "via_timeseries", "layout:F", "layout:T_view", "dtype:float64_input", "input_unchanged_checks", "class:constant_nonround", "zscore_norm_location_checks", "dtype:unsigned_input", "long_strided_lane_checks", "class:smooth", "mid_lane_checks", "many_lane_checks"]
 
 
 def cases(tier, seed):
@@ -34,6 +34,8 @@ def cases(tier, seed):
         yield {"kind": "long_lanes", "seed": int(seed) * 100003 + i}
     for i, n in enumerate((2600, 2049, 1025) if tier == "quick" else (2600, 2049, 1025, 3001, 4097, 513)):
         yield {"kind": "mid_lanes", "n": n, "seed": int(seed) * 100003 + 500 + i}
+    for i, shp in enumerate(((13, 640), (9, 800), (7, 1000), (10, 1000)) if tier == "quick" else ((13, 640), (9, 800), (7, 1000), (10, 1000), (33, 400), (5, 1200), (19, 500), (3, 1448))):
+        yield {"kind": "many_lanes", "shape": list(shp), "seed": int(seed) * 100003 + 700 + i}
 
 
 def _data(rng, shape, cls):
@@ -156,7 +158,36 @@ def _mid_lanes(case, ctx):
     ctx.nontrivial_case(case)
 
 
+def _many_lanes(case, ctx):
+    """Seven to thirteen lanes of several hundred samples, each lane with its own spread (an estimator that works through the lanes in batches,
+    tiles or chunks must still give lane k the number the 1-D estimator gives lane k), along either axis and in either memory order."""
+    from sigpyproc.core import stats
+
+    rng = np.random.default_rng([case["seed"], 153])
+    nl, n = case["shape"]
+    spread = rng.permutation(np.arange(1, nl + 1)) * 40.0
+    x = np.round(rng.normal(size=(nl, n)) * spread[:, None]).astype(np.float32)
+    for method in SCALES:
+        if method == "doublemad":
+            continue
+        for axis, arr in ((1, x), (0, np.ascontiguousarray(x.T)), (0, x.T)):
+            ctx.evaluated(); ctx.count("many_lane_checks"); ctx.count(f"scale:{method}")
+            one = dict(case, params={"scale": method, "axis": axis, "contiguous": bool(arr.flags.c_contiguous)})
+            try:
+                with np.errstate(all="ignore"):
+                    sa = np.asarray(stats.estimate_scale(arr, method, axis), dtype=np.float64).ravel()
+                    sl = np.array([float(np.asarray(stats.estimate_scale(np.ascontiguousarray(x[k]), method)).ravel()[0]) for k in range(nl)])
+            except Exception as exc:  # noqa: BLE001
+                ctx.violation(f"scale-raised:many-lanes:{method}:{type(exc).__name__}@{exc_site(exc)}", f"estimate_scale({arr.shape}, {method}, axis={axis}) raised {fmt_exc(exc)}", one); break
+            if sa.size != nl or np.any(np.abs(sa - sl) > 1e-5 * np.abs(sl)):
+                bad = np.flatnonzero(np.abs(sa - sl) > 1e-5 * np.abs(sl))[:6].tolist() if sa.size == nl else "size"
+                ctx.violation(f"lane-inconsistent:scale:many-lanes:{method}", f"{nl} lanes of {n}: per-axis scales differ from the 1-D estimator's at lanes {bad} ({sa[:nl][bad].tolist() if bad != 'size' else sa.size} vs {sl[bad].tolist() if bad != 'size' else nl})", one); break
+    ctx.nontrivial_case(case)
+
+
 def run_case(case, ctx):
+    if case.get("kind") == "many_lanes":
+        return _many_lanes(case, ctx)
     if case.get("kind") == "long_lanes":
         return _long_lanes(case, ctx)
     if case.get("kind") == "mid_lanes":
